@@ -14,6 +14,11 @@ xh (ideal AEAD, base64url = lossless wrapper, integer clock, fake falcon req/res
     owned; in every other case a 200 that is identical whatever the reason.
 (d) `_SessionRegistry.get`: defence in depth — a live entry is returned only for its own principal
     key and strictly before its expiry; expired entries are evicted and closed.
+(e) smt + xh: identity binding for ALL identities — `_compute_aad` and `_principal_key` translated from
+    their live source: no two distinct identities (NUL-free domains, unbounded strings) share both the
+    session AAD and the registry key (cvc5; z3 cross-check), witness replayed on the un-stubbed
+    middleware / DELETE resource; plus the middleware and DELETE decision tables over the anonymous
+    look-alike identities (authenticated callers spelling the anonymous tail).
 """
 
 from __future__ import annotations
@@ -46,7 +51,7 @@ ENCODED = [
     sk._expected_server_id,
     st._compute_aad,
 ]
-BOUNDS = "(a) server ids from a pool + symbolic session id (12 bytes) and 64-bit expiry, arbitrary plaintexts <= %d bytes; (b,c) 4 identities x 4 identities, same/other worker (with equal or different server id), 5 token presentations, live/closed/reaped/expired with any integer clock, ttl <= 1e9; (d) any integer clock/expiry" % pick(31, 33)
+BOUNDS = "(a) server ids from a pool + symbolic session id (12 bytes) and 64-bit expiry, arbitrary plaintexts <= %d bytes; (b,c) 4 identities x 4 identities, same/other worker (with equal or different server id), 5 token presentations, live/closed/reaped/expired with any integer clock, ttl <= 1e9; (d) any integer clock/expiry; (e) all identity pairs, unbounded lengths" % pick(31, 33)
 OUTSIDE = "the AEAD primitive and base64url codec themselves (assumed); per-session RLock contention and the reaper thread (C26); response headers of process_response; the Arrow body of the error envelope (recorded as the exception handed to _set_error_response)"
 ASSUMPTIONS = [
     tc.TOKEN_STUBS[0],
@@ -54,7 +59,8 @@ ASSUMPTIONS = [
     "time.time := integer clock; secrets.token_bytes := fresh ids",
     "struct.Struct objects := the same format through CrossHair's struct model",
     "_set_error_response := recorder of (exception, status) — its Arrow rendering is C15's subject",
-    "identities: 4 representatives (None, unauthenticated-with-fields, ('d','p'), ('d','q')); generalisation is C12(a) (the session AAD is _compute_aad)",
+    "(b,c) use 4 representative identities (None, unauthenticated-with-fields, ('d','p'), ('d','q')) plus the anonymous look-alikes ('' | None, 'anonymous'); that distinct identities never share (session AAD, registry key) is decided for ALL identities in (e)",
+    "str.encode() (UTF-8) is injective and maps exactly the NUL-free strings to NUL-free byte strings (e)",
 ]
 
 
@@ -353,7 +359,15 @@ class _Resp:
         self.headers[name] = value
 
 
-_IDS = [None, AuthContext(domain="x", authenticated=False, principal="p"), AuthContext(domain="d", authenticated=True, principal="p"), AuthContext(domain="d", authenticated=True, principal="q")]
+_IDS = [
+    None,
+    AuthContext(domain="x", authenticated=False, principal="p"),
+    AuthContext(domain="d", authenticated=True, principal="p"),
+    AuthContext(domain="d", authenticated=True, principal="q"),
+    # anonymous look-alikes: authenticated callers whose fields spell the anonymous tail (used by the look-alike items)
+    AuthContext(domain="", authenticated=True, principal="anonymous"),
+    AuthContext(domain=None, authenticated=True, principal="anonymous"),
+]
 _KEY = b"sticky-key"
 _T0 = 100
 
@@ -435,7 +449,7 @@ def _cleanup(w, req, resp) -> None:  # type: ignore[no-untyped-def]
 
 def _middleware_check(i_open: int, r: int, tok_sel: int, same_worker: bool, same_server_id: bool, closed1: bool, drained: bool, dt: int, ttl: int, impl, twin: bool = False) -> Any:  # type: ignore[no-untyped-def]
     """Shared by the harness run (impl = stubbed functions) and the real replay (impl = real ones)."""
-    i_open, r, tok_sel = _pick(i_open, 4), _pick(r, 4), _pick(tok_sel, 5)
+    i_open, r, tok_sel = _pick(i_open, len(_IDS)), _pick(r, len(_IDS)), _pick(tok_sel, 5)
     a, (s1, t1, sid1), (s2, t2, sid2) = impl.world(i_open, ttl)
     w, token = _present(a, t1, t2, tok_sel, same_worker, same_server_id) if impl.stubbed else impl.present(a, t1, t2, tok_sel, same_worker, same_server_id)
     if not same_worker and not same_server_id and twin:
@@ -568,7 +582,7 @@ def forged_or_absent_token_never_resumes(i_open: int, r: int, tok_sel: int, wher
 
 
 def _delete_check(i_open: int, r: int, tok_sel: int, where: int, life: int, dt: int, ttl: int, impl, twin: bool = False) -> Any:  # type: ignore[no-untyped-def]
-    i_open, r, tok_sel = _pick(i_open, 4), _pick(r, 4), _pick(tok_sel, 5)
+    i_open, r, tok_sel = _pick(i_open, len(_IDS)), _pick(r, len(_IDS)), _pick(tok_sel, 5)
     sw, ssid, closed1, drained = _decode(where, life)
     a, (s1, t1, sid1), (s2, t2, sid2) = impl.world(i_open, ttl)
     w, token = _present(a, t1, t2, tok_sel, sw, ssid) if impl.stubbed else impl.present(a, t1, t2, tok_sel, sw, ssid)
@@ -669,3 +683,150 @@ def registry_get_only_for_owner_and_before_expiry(same_key: bool, same_sid: bool
     """
     tc.reset(now=_T0)
     return _registry_check(same_key, same_sid, dt, ttl, _Registry(default_ttl=30), lambda t: tc.HOLD.__setitem__("now", t))
+
+
+# ---------------------------------------------------------------------------
+# (e) identity binding of sessions — decided for ALL identities, not a grid
+# ---------------------------------------------------------------------------
+# A session is reachable by caller y when the token sealed under _compute_aad(x) opens under
+# _compute_aad(y) AND the registry's principal key of y equals the stored one of x.  Isolation for every
+# pair of distinct identities is therefore:  not (AAD(x) == AAD(y) and principal_key(x) == principal_key(y)).
+# Both functions are translated from their live source; cvc5 decides it for unbounded strings.
+
+_ANON_LOOKALIKES = (0, 1, 4, 5)  # anonymous (None / unauthenticated) and authenticated ('' | None, 'anonymous')
+
+
+@cond(q=40, t=120, stubs=_MW_STUBS, encoded=[*_MW_ENC, st._compute_aad], bound="opener x requester over {None, unauthenticated, authenticated('', 'anonymous'), authenticated(None, 'anonymous')}; genuine token of session 1 / 2; same worker; live; any time/ttl",
+      replay=_replay_middleware, signature=lambda a, c: "C25:identity:anonymous-lookalike")
+def anonymous_lookalike_identities_are_isolated(i_open: int, r: int, tok_sel: int, where: int, life: int, dt: int, ttl: int) -> bool:
+    """
+    pre: i_open in _ANON_LOOKALIKES and r in _ANON_LOOKALIKES and 0 <= tok_sel <= 1 and where == 0 and life == 0 and dt >= 0 and 0 <= ttl <= 1000000000
+    post: _
+    """
+    return _middleware_check(i_open, r, tok_sel, True, False, False, False, dt, ttl, _STUBBED) is True
+
+
+@cond(q=40, t=120, stubs=ASSUMPTIONS[:4], encoded=[*_DEL_ENC, st._compute_aad], bound="same identity set; DELETE with the genuine token of session 1 / 2; same worker; live; any time/ttl",
+      replay=_replay_delete, signature=lambda a, c: "C25:identity:anonymous-lookalike")
+def anonymous_lookalike_identities_cannot_delete(i_open: int, r: int, tok_sel: int, where: int, life: int, dt: int, ttl: int) -> bool:
+    """
+    pre: i_open in _ANON_LOOKALIKES and r in _ANON_LOOKALIKES and 0 <= tok_sel <= 1 and where == 0 and life == 0 and dt >= 0 and 0 <= ttl <= 1000000000
+    post: _
+    """
+    return _delete_check(i_open, r, tok_sel, 0, 0, dt, ttl, _STUBBED) is True
+
+
+def _pkey_real(auth):  # type: ignore[no-untyped-def]
+    with _As(auth):
+        return sk._StickyMiddleware._principal_key(_Req("w1", None))
+
+
+def _replay_binding(x, y) -> dict:  # type: ignore[no-untyped-def]
+    """Un-stubbed middleware and DELETE resource: x opens a session, y presents its token on the same worker."""
+    if tc.real_identity(x) == tc.real_identity(y):
+        return {"verdict": "INCONCLUSIVE", "detail": "witness identities are equal"}
+    with _RealImpl() as impl:
+        a = impl._worker("w1")
+        state = _State("victim")
+        req0 = _Req("w1", None)
+        with _As(x):
+            token = a.mw._open_session(req0, sk._StickyMiddleware._principal_key(req0), state, 60)
+        rc._current_session_context.reset(req0.context.sticky_session_token)
+        rc._current_session_id.reset(req0.context.sticky_session_id_token)
+        req, resp = _Req("w1", token), _Resp()
+        with _As(y):
+            a.mw.process_request(req, resp)
+            resumed = (not resp.complete) and getattr(req.context, "sticky_entry", None) is not None and req.context.sticky_entry.state is state
+            a.mw.process_response(req, resp, None, True)
+            dreq, dresp = _Req("w1", token), _Resp()
+            a.resource.on_delete(dreq, dresp)
+        deleted = dresp.status == HTTPStatus.NO_CONTENT and state.closed == 1
+    if resumed or deleted:
+        return {
+            "verdict": "VIOLATION",
+            "replayed": True,
+            "signature": "C25:identity:binding-not-injective",
+            "detail": f"a session opened by {x!r} is {'resumed' if resumed else ''}{' and ' if resumed and deleted else ''}{'deleted (204)' if deleted else ''} by the different caller {y!r}: "
+            f"_compute_aad gives {st._compute_aad(x)!r} for both and the registry principal key {_pkey_real(x)!r} for both",
+        }
+    return {"verdict": "INCONCLUSIVE", "detail": "solver witness did not reproduce on the real middleware"}
+
+
+from engine.api import task  # noqa: E402
+
+
+@task(q=40, t=120, encoded=[st._compute_aad, sk._StickyMiddleware._principal_key, sk._SessionRegistry.get], bound="all pairs of caller identities with NUL-free domains, unbounded string lengths (cvc5); z3 cross-check lengths<=10", engine="smt")
+def session_binding_separates_all_identities(budget: float, replay=None) -> dict:
+    import time
+
+    res: dict = {"queries": 0, "discharged": 0, "solver_s": 0.0, "samples": []}
+    if replay is not None:
+        return _replay_binding(tc.auth_from_json(replay["x"]), tc.auth_from_json(replay["y"]))
+    pk = sk._StickyMiddleware._principal_key
+    try:
+        val = {"_compute_aad": tc.validate_identity_translation(st._compute_aad, bytes)}
+        bad, n = [], 0
+        for sname, S, _b in tc.solvers():
+            for auth in tc.identity_corpus():
+                if auth is None:
+                    continue  # the transport contextvar never yields None (anonymous is an AuthContext)
+                got = tc.eval_string(S, tc.encode_fn(pk, S, tc.ConcAuth(S, auth), ambient=True))
+                n += 1
+                if got.encode("latin-1", "replace") != _pkey_real(auth).encode():
+                    bad.append({"solver": sname, "auth": repr(auth), "model": got})
+        val["_principal_key"] = {"n": n, "n_disagree": len(bad), "disagreements": bad[:5]}
+    except tc.Unsupported as e:
+        return {**res, "verdict": "INCONCLUSIVE", "detail": f"construct outside the translator: {e}"}
+    res["translator_validation"] = val
+    if any(v["n_disagree"] for v in val.values()):
+        return {**res, "verdict": "ERROR", "detail": f"source->SMT translation disagrees with the live functions: {val}"}
+    out: dict = {}
+    for sname, S, bound in tc.solvers():
+        x, y = tc.SymAuth(S, "x"), tc.SymAuth(S, "y")
+        aad_eq = tc.encode_fn(st._compute_aad, S, x) == tc.encode_fn(st._compute_aad, S, y)
+        pk_eq = tc.encode_fn(pk, S, x, ambient=True) == tc.encode_fn(pk, S, y, ambient=True)
+        base = [S.Not(x.is_none), S.Not(y.is_none), tc.nul_free_domain(S, x), tc.nul_free_domain(S, y), S.Not(tc.same_identity(S, x, y))]
+        for label, cs in (
+            ("reachable-by-another-identity (token opens AND registry key matches)", [*base, aad_eq, pk_eq]),
+            ("session AAD alone collides", [*base, aad_eq]),
+            ("observation: registry principal key alone collides (expected sat)", [*base, pk_eq]),
+        ):
+            s = S.Solver()
+            if sname == "z3":
+                s.set("timeout", int(min(30.0, budget / 4) * 1000))
+                s.add(tc.bounded(S, x, bound + 2), tc.bounded(S, y, bound + 2))
+            else:
+                s.set("tlimit-per", int(min(30.0, budget / 4) * 1000))
+            s.add(*cs)
+            t0 = time.monotonic()
+            r = str(s.check())
+            dt = time.monotonic() - t0
+            res["queries"] += 1
+            res["solver_s"] = round(res["solver_s"] + dt, 3)
+            smp = {"solver": sname, "query": label, "result": r, "solver_s": round(dt, 3)}
+            if r == "sat":
+                try:
+                    m = s.model()
+                    smp["witness"] = {"x": tc.auth_to_json(tc.auth_from_model(S, m, x)), "y": tc.auth_to_json(tc.auth_from_model(S, m, y))}
+                except tc.Unsupported as e:
+                    smp["witness_error"] = str(e)
+            elif r == "unsat":
+                res["discharged"] += 1
+            res["samples"].append(smp)
+            out[(sname, label[:9])] = (r, smp)
+    for key in ("reachable", "session A"):
+        for sname in ("cvc5", "z3"):
+            r, smp = out[(sname, key)]
+            if r == "sat":
+                if "witness" not in smp:
+                    return {**res, "verdict": "INCONCLUSIVE", "detail": f"sat but witness unusable: {smp.get('witness_error')}"}
+                rp = _replay_binding(tc.auth_from_json(smp["witness"]["x"]), tc.auth_from_json(smp["witness"]["y"]))
+                if rp["verdict"] == "VIOLATION" or key == "reachable":
+                    return {**res, **rp, "cex": smp["witness"]}
+                # AAD collision that the registry key still separates: weaker than the property, but the primary binding is gone
+                return {**res, "verdict": "INCONCLUSIVE", "detail": f"_compute_aad is not injective ({smp['witness']}) although the registry key still separates the pair", "cex": smp["witness"]}
+            if r != "unsat" and not (sname == "z3" and r == "unknown"):
+                return {**res, "verdict": "INCONCLUSIVE", "detail": f"{key}: {sname}={r}"}
+    res["verdict"] = "CONFIRMED"
+    res["detail"] = "no two distinct identities (NUL-free domains) share the session AAD, hence none shares (AAD, registry key); the registry key alone does collide for anonymous vs authenticated('', 'anonymous') - defence in depth only"
+    return res
